@@ -24,6 +24,9 @@ def encodings(rng):
         "1-d arrays": lambda c, t: tuple(np.array([v]) for v in pick([4, 9, 11], c)),
         "lists": lambda c, t: tuple([v] for v in pick(["x", "y"], c)),
         "negative ints": lambda c, t: pick([-1, -5, 0], c),
+        # one-element categorical Series (a row of a categorical column); the two Series need not share their category lists
+        "categorical series": lambda c, t: (lambda a, b: (pd.Series([a], dtype="category"), pd.Series(pd.Categorical([b], categories=["z", "y", "x", "w"]))))(*pick(["w", "x", "y", "z"], c)),
+        "series / index objects": lambda c, t: (lambda a, b: (pd.Series([a]), pd.Index([b])))(*pick([3, 5, 8], c)),
         # distinct labels that a numeric coercion would identify (or, for "nan", separate from itself)
         "zero-padded codes": lambda c, t: pick(["1", "01", "001", "1.0", "1e0"], c),
         "64-bit ids": lambda c, t: pick([2 ** 53, 2 ** 53 + 1, 2 ** 53 + 2, 2 ** 62 + 1, 2 ** 62 + 3], c),
@@ -73,7 +76,8 @@ def run(ctx):
                  replay=lambda i: {"mode": "adwin", "params": ts[i]["params"], "script": ts[i]["script"], "enc": ts[i]["enc"]})
     # (b) LFR depends only on the confusion-matrix cell of each 0/1 pair
     cellenc = {"bool": lambda a, b, t: (bool(a), bool(b)), "np.int64": lambda a, b, t: (np.int64(a), np.int64(b)),
-               "1-d arrays": lambda a, b, t: (np.array([a]), np.array([b])), "lists": lambda a, b, t: ([a], [b])}
+               "1-d arrays": lambda a, b, t: (np.array([a]), np.array([b])), "lists": lambda a, b, t: ([a], [b]),
+               "categorical series": lambda a, b, t: (pd.Series([a], dtype="category"), pd.Series(pd.Categorical([b], categories=[1, 0])))}
     tl = []
     for i in range(3 if q else 20):
         p = drv_lfr.params(rng)
